@@ -25,25 +25,33 @@ def Local.Once (s : Local.State) : Prop :=
   (∀ c ∈ s.calls, c.id = 1) ∧
   -- `mpu.uploadId` is empty or that id
   (s.uploadId = 0 ∨ s.uploadId = 1) ∧
-  -- the lock is held exactly by the thread that is inside the `with` block
-  (∀ t, s.lock = some t ↔ Local.inCS (s.pc t) = true)
+  -- lock discipline: at most one thread is inside the `with` block, ...
+  (∀ t t', Local.inCS (s.pc t) = true → Local.inCS (s.pc t') = true → t = t') ∧
+  -- ... it holds the lock object that is stored in `_state` (the one everybody is handed), ...
+  (∀ t, Local.inCS (s.pc t) = true → s.slot = some (s.mylock t) ∧ s.locks (s.mylock t) = some t) ∧
+  -- ... and no other lock object is ever held, nor any by a thread outside the block
+  (∀ l h, s.locks l = some h → s.slot = some l ∧ Local.inCS (s.pc h) = true)
 
-/-- **local_once**: repaired code, any threads, any schedule. -/
-theorem local_once (cfg : Local.Cfg) (hr : cfg.recheck = true) (sched : List Nat) :
-    Local.Once (Local.run cfg sched) := by
-  have hI : Local.Inv cfg (Local.run cfg sched) := Local.runFrom_inv cfg hr sched _ (Local.inv_init cfg)
+/-- **local_once**: repaired code, any threads, any schedule, starting from the state in
+which `_state` holds no lock yet (the lock is created lazily by the racing threads through
+the atomic `_state.setdefault`). -/
+theorem local_once (cfg : Local.Cfg) (hr : cfg.recheck = true) (ha : cfg.atomicLock = true)
+    (sched : List Nat) : Local.Once (Local.run cfg sched) := by
+  have hI : Local.Inv cfg (Local.run cfg sched) := Local.runFrom_inv cfg hr ha sched _ (Local.inv_init cfg)
   exact ⟨⟨hI.ids.2.2, hI.count⟩, fun t h => by have := hI.pcs t; rw [h] at this; exact this,
-    hI.calls, hI.ids.1, fun t => (hI.mutex t).symm⟩
+    hI.calls, hI.ids.1, fun t t' h h' => hI.lk.mutex h h',
+    fun t h => ⟨hI.lk.sel t (Local.usesLock_of_inCS h), hI.lk.holds t h⟩, hI.lk.only⟩
 
 /-- A thread that has returned did its job: exactly one upload exists and its own
 `upload_part(part)` / `complete_multipart_upload` call under that id is in the log. -/
-theorem local_done_uploaded (cfg : Local.Cfg) (hr : cfg.recheck = true) (sched : List Nat) (t : Nat)
+theorem local_done_uploaded (cfg : Local.Cfg) (hr : cfg.recheck = true) (ha : cfg.atomicLock = true)
+    (sched : List Nat) (t : Nat)
     (hd : (Local.run cfg sched).pc t = .done) :
     (Local.run cfg sched).creates = 1 ∧
       (match cfg.kind t with
        | .write p => Call.upload p 1 ∈ (Local.run cfg sched).calls
        | .fin => Call.complete 1 ∈ (Local.run cfg sched).calls) := by
-  have hI : Local.Inv cfg (Local.run cfg sched) := Local.runFrom_inv cfg hr sched _ (Local.inv_init cfg)
+  have hI : Local.Inv cfg (Local.run cfg sched) := Local.runFrom_inv cfg hr ha sched _ (Local.inv_init cfg)
   have := hI.pcs t
   rw [hd] at this
   exact ⟨hI.ids.2.1 this.1, this.2⟩
@@ -51,27 +59,28 @@ theorem local_done_uploaded (cfg : Local.Cfg) (hr : cfg.recheck = true) (sched :
 /-- **local_progress**: a complete schedule over the threads `T` (nobody else was scheduled,
 and at the end no thread of `T` can take a step: no deadlock is possible) ends with every
 thread of `T` returned normally, i.e. (by `local_done_uploaded`) all parts uploaded. -/
-theorem local_progress (cfg : Local.Cfg) (hr : cfg.recheck = true) (T sched : List Nat)
+theorem local_progress (cfg : Local.Cfg) (hr : cfg.recheck = true) (ha : cfg.atomicLock = true)
+    (T sched : List Nat)
     (hs : ∀ t ∈ sched, t ∈ T) (hmax : ∀ t ∈ T, Local.enabled (Local.run cfg sched) t = false) :
     ∀ t ∈ T, (Local.run cfg sched).pc t = .done := by
-  have hI : Local.Inv cfg (Local.run cfg sched) := Local.runFrom_inv cfg hr sched _ (Local.inv_init cfg)
+  have hI : Local.Inv cfg (Local.run cfg sched) := Local.runFrom_inv cfg hr ha sched _ (Local.inv_init cfg)
   refine Local.all_done_of_stuck cfg _ hI T ?_ hmax
   intro t hne
   by_cases ht : t ∈ sched
   · exact hs t ht
   · exact absurd (Local.runFrom_pc_unscheduled cfg sched t ht Local.init) hne
 
-/-- Complete schedules exist and are short: a schedule over `T` contains at most `12·|T|`
+/-- Complete schedules exist and are short: a schedule over `T` contains at most `14·|T|`
 effective (non-stutter) steps, so any fair scheduler reaches a complete schedule. -/
 theorem local_bounded (cfg : Local.Cfg) (T : List Nat) (hnd : T.Nodup) (sched : List Nat)
     (hs : ∀ t ∈ sched, t ∈ T) :
-    Sched.effective (Local.step cfg) Local.enabled Local.init sched ≤ 12 * T.length := by
+    Sched.effective (Local.step cfg) Local.enabled Local.init sched ≤ 14 * T.length := by
   have h := Sched.effective_bound (step := Local.step cfg) (enabled := Local.enabled)
     (rem := fun s t => Local.remaining (s.pc t))
     (Local.step_of_not_enabled cfg)
     (fun s t t' h => by simp only [Local.step_pc_other cfg s h])
     (Local.step_decreases cfg) T hnd sched Local.init hs
-  have h0 := Sched.total_const (fun (s : Local.State) t => Local.remaining (s.pc t)) Local.init 12
+  have h0 := Sched.total_const (fun (s : Local.State) t => Local.remaining (s.pc t)) Local.init 14
     (fun _ => rfl) T
   omega
 
@@ -79,17 +88,25 @@ theorem local_bounded (cfg : Local.Cfg) (T : List Nat) (hnd : T.Nodup) (sched : 
 def Local.asFound : Local.Cfg := { kind := fun t => .write (t + 1), recheck := false }
 
 /-- the race of finding F5: both threads read `started` before either initiates -/
-def Local.cexSchedule : List Nat := [0, 1, 0, 0, 0, 0, 0, 0, 1, 1, 1, 1]
+def Local.cexSchedule : List Nat := [0, 1, 0, 0, 0, 0, 0, 0, 0, 0, 1, 1, 1, 1, 1]
 
 /-- **local_once_cex** (F5): on the code as found the second thread trips
 `assert self.uploadId == ""` in `initiate` — `local_once` is false without the repair. -/
 theorem local_once_cex : ¬ Local.Once (Local.run Local.asFound Local.cexSchedule) :=
   fun h => h.2.1 1 (by decide)
 
-/-- the same schedule (continued to completion) is harmless on the repaired code -/
+/-- the same race (continued to completion) is harmless on the repaired code -/
 example : let s := Local.run { Local.asFound with recheck := true }
-            [0, 1, 0, 0, 0, 0, 0, 0, 0, 0, 0, 0, 1, 1, 1, 1, 1, 1, 1]
-    s.pc 0 = .done ∧ s.pc 1 = .done ∧ s.creates = 1 ∧ s.lock = none := by decide
+            ([0, 1] ++ List.replicate 12 0 ++ List.replicate 8 1)
+    s.pc 0 = .done ∧ s.pc 1 = .done ∧ s.creates = 1 ∧ s.held = none := by decide
+
+/-- What the atomicity of `_state.setdefault` is needed for: with a check-then-store lock
+creation (`lck = _state.get(k); if lck is None: lck = _state[k] = Lock()`) two threads doing
+the process's first lookup each get their own lock object, both pass the re-check and two
+uploads are initiated - even with the F5 repair in place. -/
+theorem local_lock_creation_cex :
+    (Local.run { kind := fun t => .write (t + 1), recheck := true, atomicLock := false }
+      [0, 0, 0, 1, 1, 1, 0, 1, 0, 0, 0, 1, 1, 1, 0, 1]).creates = 2 := by decide
 
 /-! ## Cluster variant (one copy per worker, shared Variable, distributed Lock) -/
 
